@@ -181,9 +181,42 @@ def run(case):
             haps[-1]["depth"] = rng.choice([10, 12, 14])
         rds = reads.simulate(g, haps, rl=rl, depth=depth, ref=db.ref, neutral=db.neutral, rng=rng,
                              paired=rng.random() < 0.5, error_rate=rng.choice([0, 0, 0.003]))
+        # a profile *file* carrying its own options (values the archive has to carry too, including falsy ones);
+        # the reads of one planted copy then have mapping quality 5 so that `min_mapq: 0` matters
+        popts = None
+        if rng.random() < 0.3:
+            popts = {}
+            if rng.random() < 0.7:
+                popts["min_mapq"] = 0
+                for r_ in rds:
+                    if r_.get("hap") == 0:
+                        r_["mapq"] = 5
+            if rng.random() < 0.4:
+                popts["phase"] = False
+            if rng.random() < 0.3:
+                popts["min_quality"] = 0
+            if rng.random() < 0.3:
+                popts["max_minor_solutions"] = 2
+            if rng.random() < 0.25:
+                popts["min_avg_coverage"] = rng.choice([60, 100])
+            if rng.random() < 0.25:
+                popts["display_format"] = True
         bam = reads.write_bam(os.path.join(scratch, "smp1.bam"), g.chr, db.contig_len, rds)
         a, b = db.neutral
-        argv = ["--gene", db.path, "--profile", db.ref_bam(rl, depth), "-n", f"{g.chr}:{a}-{b}"]
+        prof_arg = db.ref_bam(rl, depth)
+        if popts is not None:
+            import yaml
+            from aldy.profile import Profile
+
+            regions = {(g.name, r, gi): rg for gi, gr in enumerate(g.regions) for r, rg in gr.items()}
+            d = Profile.get_sam_profile_data(prof_arg, regions=regions, genome=genome, cn_region=db.cn_region())
+            d["options"] = dict(popts)
+            prof_arg = os.path.join(scratch, "with_options.profile")
+            with open(prof_arg, "w") as f:
+                f.write(yaml.dump(d, default_flow_style=None))
+        argv = ["--gene", db.path, "--profile", prof_arg]
+        if popts is None:
+            argv += ["-n", f"{g.chr}:{a}-{b}"]  # (a profile file names its own neutral region)
         explicit = not (genome == "hg19" and rng.random() < 0.5)
         if explicit:
             argv += ["--genome", genome]
@@ -203,7 +236,7 @@ def run(case):
             params += ["--cn", ",".join(sorted(__import__("collections").Counter(
                 g.alleles[c[0]].cn_config for c in copies if c[0] != g.deletion_allele()).elements()))]
         desc = {"db": db.label, "planted": [list(c[:2]) for c in copies], "rl": rl, "explicit_genome": explicit,
-                "params": params, "chrom": g.chr}
+                "params": params, "chrom": g.chr, "profile_file_options": popts}
         nontrivial = run_pair(res, argv + params, bam, desc, "smp1")
         if case["k"] < 2:
             res.sample = desc
